@@ -485,6 +485,24 @@ def shard(shard, seed, n, part):
     return run
 
 
+def shard_enum(shard, nshards, stride, offset):
+    """Bounded-exhaustive: SMT-LIB and human-readable round trips of every one- / two-operator term."""
+    import itertools
+    import random
+    from vf import enumterms
+    run = Run(PID)
+    g = G(cfg=HR_CFG, rnd=random.Random(0))
+    idx = 0
+    for t in itertools.chain((x for v in enumterms.depth1().values() for x in v), enumterms.depth2()):
+        idx += 1
+        if idx % nshards != shard or (idx // nshards) % stride != offset % stride:
+            continue
+        check_roundtrip(run, t, g, {})
+        check_hr(run, t, g, {})
+        run.cls("enumerated-two-operator-term")
+    return run
+
+
 def main():
     chk = Check(PID, "exploration", RULE, assumptions=[
         "round trips are judged by object identity in the same environment (hash-consing, C04)",
@@ -496,6 +514,7 @@ def main():
     jobs = [(shard, dict(shard=s, seed=chk.seed, n=per, part="roundtrip")) for s in range(6)]
     jobs += [(shard, dict(shard=s, seed=chk.seed, n=per, part="script")) for s in range(5)]
     jobs += [(shard, dict(shard=s, seed=chk.seed, n=per, part="hr")) for s in range(5)]
+    jobs += [(shard_enum, dict(shard=s, nshards=16, stride=1 if thorough else 16, offset=chk.seed)) for s in range(16)]
     chk.add(run_shards(jobs))
     for c in ("roundtrip:dag", "roundtrip:quoted-name", "roundtrip:array-value-as-stores", "script:parsed",
               "script-tag:assert-soft", "script-tag:objective", "script-tag:define-fun", "hr:parsed"):
